@@ -280,17 +280,15 @@ func (e *Exec) callStatic(fr *Frame, st *BState, x *ssa.Call, f *ssa.Function, a
 	}
 	if tup, ok := x.Type().(*types.Tuple); ok && tup.Len() == 0 {
 		if !inRepo {
-			libName := f.Name()
-			if i := strings.Index(libName, "["); i >= 0 {
-				libName = libName[:i]
+			for _, libName := range libNames(f) {
+				cn := "$calls.lib" + libName
+				old := intLit(0)
+				if v, ok := st.ghost[cn]; ok {
+					old = scal(v)
+				}
+				st.ghost[cn] = intSV(add(old, intLit(1)))
+				ghostTypes[cn] = types.Typ[types.Int]
 			}
-			cn := "$calls.lib" + libName
-			old := intLit(0)
-			if v, ok := st.ghost[cn]; ok {
-				old = scal(v)
-			}
-			st.ghost[cn] = intSV(add(old, intLit(1)))
-			ghostTypes[cn] = types.Typ[types.Int]
 		}
 		return &TupleV{}
 	}
@@ -298,17 +296,16 @@ func (e *Exec) callStatic(fr *Frame, st *BState, x *ssa.Call, f *ssa.Function, a
 	if !inRepo {
 		// abstracted library functions are visible to contracts the way interface methods are, under the name
 		// lib<Name>: calls(libFlush) counts them, lastres(libFlush) is the (final) result of the most recent one
-		libName := f.Name()
-		if i := strings.Index(libName, "["); i >= 0 {
-			libName = libName[:i] // instantiation of a generic function: Scan[*T] is Scan
+		libName := libNames(f)[0] // instantiation of a generic function: Scan[*T] is Scan (and Scan_T for the counter)
+		for _, ln := range libNames(f) {
+			cn := "$calls.lib" + ln
+			old := intLit(0)
+			if v, ok := st.ghost[cn]; ok {
+				old = scal(v)
+			}
+			st.ghost[cn] = intSV(add(old, intLit(1)))
+			ghostTypes[cn] = types.Typ[types.Int]
 		}
-		cn := "$calls.lib" + libName
-		old := intLit(0)
-		if v, ok := st.ghost[cn]; ok {
-			old = scal(v)
-		}
-		st.ghost[cn] = intSV(add(old, intLit(1)))
-		ghostTypes[cn] = types.Typ[types.Int]
 		if tup, ok := x.Type().(*types.Tuple); ok {
 			if tv, ok := r.(*TupleV); ok && len(tv.Elems) == tup.Len() {
 				st.ghost["$lastres.lib"+libName] = tv.Elems[tup.Len()-1]
@@ -320,6 +317,35 @@ func (e *Exec) callStatic(fr *Frame, st *BState, x *ssa.Call, f *ssa.Function, a
 		}
 	}
 	return r
+}
+
+// libNames: the names under which an abstracted library call is visible to contracts: lib<Name>, and for an
+// instantiation of a generic function also lib<Name>_<T> with T the (unqualified) first type argument
+func libNames(f *ssa.Function) []string {
+	n := f.Name()
+	i := strings.Index(n, "[")
+	if i < 0 {
+		return []string{n}
+	}
+	base := n[:i]
+	arg := strings.TrimSuffix(n[i+1:], "]")
+	if j := strings.Index(arg, ","); j >= 0 {
+		arg = arg[:j]
+	}
+	if j := strings.LastIndexAny(arg, "./*"); j >= 0 {
+		arg = arg[j+1:]
+	}
+	out := []string{base}
+	ok := arg != ""
+	for _, r := range arg {
+		if !(r == '_' || r >= 'a' && r <= 'z' || r >= 'A' && r <= 'Z' || r >= '0' && r <= '9') {
+			ok = false
+		}
+	}
+	if ok {
+		out = append(out, base+"_"+arg)
+	}
+	return out
 }
 
 // havocPointees: a library function without a contract may write through the pointers it is given (json.Decode(&out),
